@@ -23,6 +23,23 @@ Theorem compact_preserves :
 Proof. exact compact_preserves_proof. Qed.
 Print Assumptions compact_preserves.
 
+(* The same for one step of the compaction task as a whole, whether Compact returns nil, a change set, or FAILS with a
+   storage read error (then nothing is installed): validity and every read are preserved.  This is the statement the
+   fault-injecting correspondence check ties to the code. *)
+Theorem compact_step_preserves :
+  forall tsize cfg mcl ll extra failed,
+  good_cfg cfg -> valid (add_l0 extra ll) ->
+  let ll1 := add_l0 extra ll in
+  let ll2 := fst (compact_step tsize failed cfg mcl ll extra) in
+  valid ll2 /\ (forall k, ll_get k ll2 = ll_get k ll1) /\ (forall p, ll_scan p ll2 = ll_scan p ll1) /\ view ll2 = view ll1.
+Proof. exact compact_step_preserves_proof. Qed.
+Print Assumptions compact_step_preserves.
+
+Theorem failed_step_unchanged :
+  forall tsize cfg mcl ll extra, fst (compact_step tsize true cfg mcl ll extra) = add_l0 extra ll.
+Proof. exact failed_step_unchanged_proof. Qed.
+Print Assumptions failed_step_unchanged.
+
 (* what "visible value" means on a valid layout: Get returns the version with the greatest sequence number of the whole
    layout, ScanPrefix the live ones of those, ascending *)
 Theorem get_is_newest :
